@@ -275,6 +275,44 @@ func runG1(p *an.Prog, r *an.Result) {
 			r.Bad(name, fmt.Sprintf("frame field %d is not restored to the variable it was saved from", k), an.FuncPos(popFn), "after an end tag the parser must continue exactly where the enclosing block left off")
 		}
 	}
+	// every parser variable that a block start assigns (in push or right after it) is restored by pop
+	// from a frame field that push saved from that same variable
+	assigned := map[ssa.Value]bool{}
+	an.EachInstr(pushFn, func(in ssa.Instruction) {
+		if st, ok := in.(*ssa.Store); ok {
+			if fv, ok := st.Addr.(*ssa.FreeVar); ok {
+				if c := cellOfFreeVar(fn, pushFn, fv); c != nil && c != ssa.Value(stack) {
+					assigned[c] = true
+				}
+			}
+		}
+	})
+	for _, ps := range pushSites {
+		for _, in := range ps.Block().Instrs {
+			if st, ok := in.(*ssa.Store); ok {
+				if al, ok := st.Addr.(*ssa.Alloc); ok && al.Heap && al != stack {
+					assigned[al] = true
+				}
+			}
+		}
+	}
+	for cell := range assigned {
+		nm := cell.Name()
+		if al, ok := cell.(*ssa.Alloc); ok && al.Comment != "" {
+			nm = al.Comment
+		}
+		okR := false
+		for k, c := range restored {
+			if c == cell && saved[k] == cell {
+				okR = true
+			}
+		}
+		if okR {
+			r.OK(name, "variable "+nm+" assigned at block start is restored from the frame", an.FuncPos(popFn), "")
+		} else {
+			r.Bad(name, "variable "+nm+" assigned at block start is not restored from the frame", an.FuncPos(popFn), fmt.Sprintf("a block start changes %s but the end tag does not put back the value saved when the block opened: content after a nested block is attached in the wrong place", nm))
+		}
+	}
 	// the popped frame is the top of the stack
 	okTop := false
 	an.EachInstr(popFn, func(in ssa.Instruction) {
@@ -440,6 +478,43 @@ func runG2(p *an.Prog, r *an.Result) {
 			}
 		}
 	}
+	// a comment or raw block is a leaf: when its flag is set it is the innermost open construct, so it
+	// must be reported before an enclosing open block is
+	var cellTests, flagTests []*ssa.If
+	an.EachInstr(fn, func(in ssa.Instruction) {
+		ifi, ok := in.(*ssa.If)
+		if !ok || reachesBlock(ifi.Block(), ifi.Block()) {
+			return // inside the loop
+		}
+		for _, cell := range openCells {
+			if condMentions(ifi.Cond, func(v ssa.Value) bool { u, ok := v.(*ssa.UnOp); return ok && u.X == cell }, 0) {
+				cellTests = append(cellTests, ifi)
+			}
+		}
+		for _, ph := range flags {
+			if condMentions(ifi.Cond, func(v ssa.Value) bool { return v == ssa.Value(ph) }, 0) {
+				flagTests = append(flagTests, ifi)
+			}
+		}
+	})
+	for _, ct := range cellTests {
+		for _, ft := range flagTests {
+			if ct.Block().Dominates(ft.Block()) && ct != ft {
+				r.Bad(name, "open-block test comes before the comment/raw test", ct.Pos(), "when a comment or raw block is left open inside another block, the error must name the comment/raw tag (the innermost open construct), not the enclosing block")
+			}
+		}
+	}
+	if len(cellTests) > 0 && len(flagTests) > 0 {
+		bad := false
+		for _, o := range r.Obs {
+			if o.Status == an.Violated {
+				bad = true
+			}
+		}
+		if !bad {
+			r.OK(name, "comment/raw flags are tested before the open-block pointer", flagTests[0].Pos(), "the innermost open construct is reported first")
+		}
+	}
 	r.Floor("open-state variables", 1)
 }
 
@@ -485,7 +560,7 @@ func reachesBlock(from, to *ssa.BasicBlock) bool {
 
 func runG3(p *an.Prog, r *an.Result) {
 	roles := GetRoles(p)
-	for _, pr := range roles.Problems {
+	for _, pr := range roles.TagProblems {
 		r.Bad("-", "roles: "+pr, token.NoPos, "an anchor the rule needs could not be resolved")
 	}
 	want := map[string][]string{
@@ -526,25 +601,6 @@ func runG3(p *an.Prog, r *an.Result) {
 			r.Bad("tags.AddStandardTags", "tag "+tn+" not registered", token.NoPos, "the standard grammar lacks a tag the properties name")
 		} else {
 			r.OK("tags.AddStandardTags", "tag "+tn+" registered", t.Pos, an.FuncName(t.Compiler))
-		}
-	}
-	// the parser treats comment and raw by name: the names must be registered as blocks (above) and compared literally
-	fn := p.Func("(parser.Config).parseTokens")
-	if fn != nil {
-		lits := map[string]bool{}
-		an.EachInstr(fn, func(in ssa.Instruction) {
-			if b, ok := in.(*ssa.BinOp); ok && b.Op == token.EQL {
-				if s, ok := an.ConstString(b.Y); ok {
-					lits[s] = true
-				}
-			}
-		})
-		for _, s := range []string{"comment", "endcomment", "raw", "endraw"} {
-			if lits[s] {
-				r.OK(an.FuncName(fn), "tag name "+s+" recognised by the parser", an.FuncPos(fn), "")
-			} else {
-				r.Bad(an.FuncName(fn), "tag name "+s+" not recognised by the parser", an.FuncPos(fn), "comment and raw bodies must be delimited by their own tags")
-			}
 		}
 	}
 }
